@@ -89,6 +89,13 @@ int __wrap_randInt(int lo, int hi) { tick_any(); return __real_randInt(lo, hi); 
 double __real_calcConvergence(dvector *, dvector *);
 double __wrap_calcConvergence(dvector *a, dvector *b) { tick_any(); return __real_calcConvergence(a, b); }
 
+/* optional measurement log (env C05_STATS=file), used for the margins quoted in notes/C05.md */
+#include <fcntl.h>
+static void stat_line(const char *what, const char *fn, const char *al, double a, double b) {
+  static int fd = -2; if (fd == -2) { const char *f = getenv("C05_STATS"); fd = f ? open(f, O_WRONLY | O_CREAT | O_APPEND, 0644) : -1; }
+  if (fd < 0) return;
+  char buf[200]; int n = snprintf(buf, sizeof buf, "%s %s %s %.6g %.6g\n", what, fn, al, a, b); if (write(fd, buf, (size_t)n) < 0) fd = -1;
+}
 /* ------------------------------------------------------------------ data */
 static void make_data(const cfg_t *c, matrix **Xo, matrix **Yo) {
   int n = c->n, p = c->p, k = c->fam * 31;
@@ -282,6 +289,8 @@ static void cv_case(const cfg_t *c, const call_t *k, int delta_choice) {
     vx_check(bi < 0, key, "%s n=%d p=%d ny=%d nlv=%d threads=%d groups=%d iterations=%d: object %d column %d reported %.17g, model refitted on the other folds predicts %.17g (allowance %.3g)",
              al, n, c->p, c->ny, c->nlv, k->nthreads, k->groups, k->iters, bi, bj, bi >= 0 ? pred->data[bi][bj] : 0.0, bi >= 0 ? expv[bi][bj] / want_sweeps : 0.0, bi >= 0 ? tol[bi] / want_sweeps : 0.0);
     vx_log("refit: worst |reported-refit|/allowance = %.3g\n", worst_ratio);
+    { double wd = 0, wt = 0; int nj = 0; for (int i = 0; i < n; i++) if (judge[i]) { nj++; if (tol[i] / want_sweeps > wt) wt = tol[i] / want_sweeps; for (int j = 0; j < ncol; j++) wd = fmax(wd, fabs(pred->data[i][j] - expv[i][j] / want_sweeps)); }
+      stat_line("refit", fn, al, wd, wt); stat_line("judged", fn, al, nj, n); }
     if (c->algo == A_LDA && k->scheme != S_BOOT) {
       int okl = 1; for (int i = 0; i < n; i++) { double v = pred->data[i][0]; if (v != floor(v) || v < 0 || v >= c->ncls) okl = 0; }
       snprintf(key, sizeof key, "label|%s|LDA", fn);
@@ -310,6 +319,8 @@ static void cv_case(const cfg_t *c, const call_t *k, int delta_choice) {
     }
     DelMatrix(&Y2); DelMatrix(&p2); DelMatrix(&r2);
   }
+  { double mininf = INFINITY; int amb = 0; for (int i = 0; i < n; i++) for (int j = 0; j < n; j++) if (A[i][j] == 2 && c->algo != A_LDA) amb++;
+    stat_line("ambiguous-influence", fn, al, amb, ambiguous); (void)mininf; }
   snprintf(key, sizeof key, "leak|%s|%s", fn, al);
   vx_check(leak_i < 0, key, "%s n=%d threads=%d groups=%d iterations=%d: the prediction of object %d changes by %.3g when its own response is changed", al, n, k->nthreads, k->groups, k->iters, leak_i, leak_d);
 
